@@ -9,6 +9,8 @@ import (
 	"github.com/lianxiangcloud/linkchain/libs/trie"
 	"github.com/lianxiangcloud/linkchain/state"
 	"github.com/lianxiangcloud/linkchain/types"
+	"github.com/lianxiangcloud/linkchain/vm"
+	"github.com/lianxiangcloud/linkchain/vm/evm"
 )
 
 // C06 (account side) / C06 (account transfers) — one account-to-account transaction through the real
@@ -129,5 +131,98 @@ func H_C06_account_transfer_conserves_native_value() {
 		verifAssert(rAfter.Cmp(bR) == 0, "failed-transfer-moves-nothing-but-fees")
 	} else {
 		verifAssert(rAfter.Cmp(new(big.Int).Add(bR, value)) == 0, "receiver-gets-exactly-the-value")
+	}
+}
+
+// ---- contract calls: the virtual machine is cut to its contract with Transit ----
+//
+// c06VM stands for the EVM/WASM machine behind VmFactory.GetRealVm. Like the real UTXOCall it credits
+// the call value to the contract, runs (here: an arbitrary outcome), and on failure takes the credit
+// back; it hands back at most the gas it was given, and its fee refunds never exceed what it consumed.
+// Everything else - nonce check, buying gas, intrinsic and value-transfer fee, debit of the inputs,
+// refund, revert on failure, fee record - is the real Transit.
+type c06VM struct {
+	vm.VmInterface
+	st *state.StateDB
+}
+
+var c06VMRefund uint64
+
+func (m *c06VM) Reset(types.Message)          {}
+func (m *c06VM) SetToken(addr common.Address) {}
+func (m *c06VM) GetOTxs() []types.BalanceRecord { return nil }
+func (m *c06VM) RefundFee() uint64            { return c06VMRefund }
+func (m *c06VM) RefundAllFee() uint64         { return c06VMRefund }
+func (m *c06VM) UTXOCall(c types.ContractRef, addr, token common.Address, input []byte, gas uint64, value *big.Int) ([]byte, uint64, uint64, error) {
+	left := verifNondetUint64()
+	verifAssume(left <= gas)
+	c06VMRefund = verifNondetUint64()
+	verifAssume(c06VMRefund <= gas-left)
+	if verifNondetBool() {
+		return nil, left, 0, evm.ErrOutOfGas // its own state changes are reverted: none are visible
+	}
+	m.st.AddTokenBalance(addr, token, value)
+	return nil, left, 0, nil
+}
+
+var c06VMInst *c06VM
+
+func stub_c06_getvm(v *vm.VmFactory, code []byte, toPtr *common.Address) vm.VmInterface { return c06VMInst }
+
+var c06C = common.Address{0xC3}
+
+//verif:stub (*github.com/lianxiangcloud/linkchain/vm.VmFactory).GetRealVm => stub_c06_getvm
+//verif:opt unwind=12 budget_s=900 split=9
+func H_C06_contract_call_conserves_native_value() {
+	st, err := state.New(common.Hash{}, &c06DB{main: &c06Trie{m: map[string][]byte{}}})
+	if err != nil {
+		panic(err)
+	}
+	bS, bC := c06Amount(), c06Amount()
+	nS := verifNondetUint64()
+	st.SetBalance(c06S, bS)
+	st.SetNonce(c06S, nS)
+	st.SetBalance(c06C, bC)
+	st.SetCode(c06C, []byte{0x60, 0x00})
+	// the value sent along: nothing, one wei, or 100 coins (the value-transfer fee is a step function of it)
+	value := []*big.Int{big.NewInt(0), big.NewInt(1), new(big.Int).Mul(big.NewInt(100), big.NewInt(1e18))}[verifCase(3)]
+	// gas accounting is linear in the price; with a symbolic price the solver would have to prove
+	// (a-b)*p = a*p - b*p over nested conversions - a few representative prices instead
+	price := big.NewInt([]int64{0, 1, 7}[verifCase(3)])
+	gas := verifNondetUint64()
+	c06VMInst = &c06VM{st: st}
+	c06VMRefund = 0
+	cerrID = []byte{0x08, 0xc3, 0x79, 0xa0} // selector of Error(string); its initialiser (abi.JSON, reflective) is not encoded
+	tx := &processTransaction{
+		Type: types.TxNormal, Kind: types.AinAout,
+		Inputs:  []txInput{{From: c06S, Value: value, Nonce: nS, Type: Ain}},
+		Outputs: []txOutput{{To: c06C, Amount: value, Type: Cout}},
+		Gas:     gas, GasPrice: price, InitialGas: gas, RefundAddr: c06S,
+		State: st, Hash: common.Hash{0x78}, Vmenv: &vm.VmFactory{},
+	}
+	res, vmerr, terr := tx.Transit()
+	verifReach("call-transited")
+	sAfter, cAfter := st.GetBalance(c06S), st.GetBalance(c06C)
+	if terr != nil {
+		// a refused transaction makes the whole block invalid (its state is thrown away by the caller);
+		// what matters here is that it did not execute
+		verifAssert(st.GetNonce(c06S) == nS && cAfter.Cmp(bC) == 0, "refused-call-does-not-execute")
+		return
+	}
+	verifReach("call-executed")
+	verifAssert(st.GetNonce(c06S) == nS+1, "call-bumps-the-nonce-by-exactly-one")
+	verifAssert(tx.Gas <= gas, "call-never-leaves-more-gas-than-given")
+	verifAssert(res.Gas == gas-tx.Gas, "reported-gas-is-the-gas-paid-for")
+	paid := new(big.Int).Mul(new(big.Int).SetUint64(gas-tx.Gas), price)
+	verifAssert(res.Fee.Cmp(paid) == 0, "reported-fee-is-gas-paid-for-times-price")
+	total := new(big.Int).Add(new(big.Int).Add(sAfter, cAfter), paid)
+	verifAssert(total.Cmp(new(big.Int).Add(bS, bC)) == 0, "call-conserves-native-value")
+	verifAssert(sAfter.Sign() >= 0 && cAfter.Sign() >= 0, "call-leaves-no-negative-balance")
+	if vmerr != nil {
+		verifReach("call-failed")
+		verifAssert(cAfter.Cmp(bC) == 0, "failed-call-moves-nothing-but-fees")
+		verifAssert(sAfter.Cmp(new(big.Int).Sub(bS, paid)) == 0, "failed-call-costs-the-sender-exactly-the-fee")
+	} else {
+		verifAssert(cAfter.Cmp(new(big.Int).Add(bC, value)) == 0, "contract-gets-exactly-the-value")
 	}
 }
